@@ -87,6 +87,18 @@ CHECKS = {
         note='State is the structural dump of vf.core.lib.dump (private fields and the recorded vector size included); '
              'in-place mutation goes through the public container interfaces only.',
         design='3 (C13)'),
+    'C14': dict(
+        technique='property-based testing with a well-formedness oracle (strict json.loads, Markdown is text) and '
+                  'metamorphic determinism relations: deepcopy, parse-compose round trip, sets rebuilt in reversed '
+                  'insertion order, reversed serialisation order in one process, child processes under '
+                  'PYTHONHASHSEED 0..3 running the same seeded cases',
+        text='~60 (thorough 1500) generated objects per class with a spec strategy, every accepted corpus input and '
+             '40 (1000) accepted mutants per concrete class are serialised to JSON and Markdown; any exception, '
+             'non-standard JSON or non-text Markdown is a finding; equal objects must give identical output under '
+             'the five relations. Sampling.',
+        note='Failures are keyed by the innermost cryptoparser/cryptodatahub frame; mutated X.509 certificates are '
+             'outside the generated domain (lazy third-party parsing).',
+        design='3 (C14)'),
     'C08': dict(
         technique='differential testing against an independent RFC reference codec (vf/ref/dns.py): Hypothesis-generated '
                   'plain-data models + a seeded boundary grid; compose == reference RDATA, parse(reference) recovers '
